@@ -3951,3 +3951,116 @@ theorem Runs.subset {b b' : Buf} {ops : List Op} (h : Runs b ops b')
     · exact Or.inr ⟨op', List.mem_cons_of_mem _ hop', hc'⟩
 
 end RbModel.Buf
+
+namespace RbModel.Buf
+open RbModel.Mem
+
+/-! ## what the cluster level (and the cluster values) cannot influence: glyph identities and order -/
+
+/-- identity of a glyph record: everything but its cluster and its mask (flag bits live in the mask) -/
+def ident (x : Info) : Nat × Nat × Nat := (x.gid, x.var1, x.var2)
+
+/-- glyph identities of the logical sequence, in order -/
+def glyphs (b : Buf) : List (Nat × Nat × Nat) := (lview b).map ident
+
+theorem ident_setCluster (x : Info) (c m : Nat) : ident (setCluster x c m) = ident x := rfl
+
+theorem IsMerge.glyphs_eq {L L' : List Info} {S E m : Nat} (h : IsMerge L L' S E m) : L'.map ident = L.map ident := by
+  apply List.ext_getElem?
+  intro q
+  rw [List.getElem?_map, List.getElem?_map]
+  by_cases hz : Zone L S E q
+  · rw [h.inz q hz]
+    cases L[q]? with
+    | none => rfl
+    | some x => simp [ident_setCluster]
+  · rw [h.outz q hz]
+
+theorem OnlyMask.glyphs_eq {l l' : List Info} (h : OnlyMask l l') : l'.map ident = l.map ident := by
+  have h2 : (l'.map noMask).map ident = (l.map noMask).map ident := by rw [h]
+  have e : ident ∘ noMask = ident := rfl
+  rwa [List.map_map, List.map_map, e] at h2
+
+theorem FlagsOnly.glyphs_eq {b b' : Buf} (h : FlagsOnly b b') : glyphs b' = glyphs b := (FlagsOnly.lview h).glyphs_eq
+
+/-- merging clusters moves no glyph and changes no glyph identity, at any cluster level -/
+theorem mergeClusters_glyphs (b : Buf) (s e : Nat) (hwf : WF b) (hs : b.idx ≤ s) (he : e ≤ b.len)
+    (hg : Gen.Buf.extendStartGuard = 1) : ∃ b', b.mergeClusters s e = .ok b' ∧ glyphs b' = glyphs b := by
+  by_cases hshort : e - s < 2
+  · exact ⟨b, by unfold mergeClusters; simp [hshort]; rfl, rfl⟩
+  · by_cases hl : b.level = 2
+    · obtain ⟨b', hb, hf⟩ := unsafeToBreak_ok b s e hwf (by omega) he
+      refine ⟨b', ?_, hf.glyphs_eq⟩
+      unfold mergeClusters mergeClustersImpl
+      simp only [hshort, if_false, hl, beq_self_eq_true, if_true]
+      rw [hb]
+    · obtain ⟨b', m, hb, _, hm⟩ := mergeClusters_isMerge b s e hwf hs (by omega) he hl hg
+      exact ⟨b', hb, hm.glyphs_eq⟩
+
+theorem mergeOutClusters_glyphs (b : Buf) (s e : Nat) (hwf : WF b) (he : e ≤ b.outLen) :
+    ∃ b', b.mergeOutClusters s e = .ok b' ∧ glyphs b' = glyphs b := by
+  by_cases hl : b.level = 2
+  · exact ⟨b, by unfold mergeOutClusters; simp [hl]; rfl, rfl⟩
+  · by_cases hshort : e - s < 2
+    · refine ⟨b, ?_, rfl⟩
+      unfold mergeOutClusters
+      have : (b.level == 2) = false := by simpa using hl
+      simp [this, hshort]; rfl
+    · obtain ⟨b', m, hb, _, hm⟩ := mergeOutClusters_isMerge b s e hwf (by omega) he hl
+      exact ⟨b', hb, hm.glyphs_eq⟩
+
+theorem formLoop_glyphs (merge : Bool) (count : Nat) (hg : Gen.Buf.extendStartGuard = 1) : ∀ (fuel : Nat) (b : Buf) (s e : Nat),
+    InPlace b → b.len = count → s < e → (s < count → e ≤ count) →
+    ∃ b', formLoop merge count b s e fuel = .ok b' ∧ glyphs b' = glyphs b := by
+  intro fuel
+  induction fuel with
+  | zero => intro b s e _ _ _ _; exact ⟨b, rfl, rfl⟩
+  | succ fuel ih =>
+    intro b s e hin hc hse he
+    by_cases hs : s < count
+    · have hbody : ∃ b1, (if merge = true then b.mergeClusters s e else b.unsafeToBreak s (some e)) = .ok b1 ∧
+          InPlace b1 ∧ b1.len = b.len ∧ glyphs b1 = glyphs b := by
+        cases merge with
+        | true =>
+          obtain ⟨b1, hm, hwf1, e1, e2, e3, _⟩ := mergeClusters_props b s e hin.wf (by rw [hin.idx0]; omega) (by rw [hc]; exact he hs) hg
+          obtain ⟨b1', hm', hgl⟩ := mergeClusters_glyphs b s e hin.wf (by rw [hin.idx0]; omega) (by rw [hc]; exact he hs) hg
+          rw [hm] at hm'; cases hm'
+          exact ⟨b1, by simpa using hm, ⟨by rw [e1]; exact hin.idx0, by rw [e3]; exact hin.out0, hwf1.len_le⟩, e2, hgl⟩
+        | false =>
+          obtain ⟨b1, hb, hf⟩ := unsafeToBreak_ok b s e hin.wf (by omega) (by rw [hc]; exact he hs)
+          have h1 := hf.1
+          have hwf1 := hf.wf hin.wf
+          exact ⟨b1, by simpa using hb, ⟨by rw [h1]; exact hin.idx0, by rw [h1]; exact hin.out0, hwf1.len_le⟩, by rw [h1], hf.glyphs_eq⟩
+      obtain ⟨b1, hb1, hin1, l1, hg1⟩ := hbody
+      obtain ⟨r, hr, hr1, hr2⟩ := graphemeEnd_spec b1 e hin1.len_le
+      obtain ⟨b', hb', hg'⟩ := ih b1 e r hin1 (by rw [l1, hc]) hr1
+        (fun h => by have := hr2 (by rw [l1, hc]; exact h); rw [l1, hc] at this; exact this)
+      refine ⟨b', ?_, by rw [hg', hg1]⟩
+      simp only [formLoop, hs, if_true]
+      cases merge
+      · simp only [Bool.false_eq_true, if_false] at hb1 ⊢
+        rw [hb1]; simp only [ok_bind, hr]; exact hb'
+      · simp only [if_true] at hb1 ⊢
+        rw [hb1]; simp only [ok_bind, hr]; exact hb'
+    · refine ⟨b, ?_, rfl⟩
+      simp only [formLoop, hs, if_false]; rfl
+
+/-- `form_clusters` moves no glyph and changes no glyph identity, at any level -/
+theorem formClusters_glyphs (b : Buf) (hin : InPlace b) (hg : Gen.Buf.extendStartGuard = 1) :
+    ∃ b', b.formClusters = .ok b' ∧ glyphs b' = glyphs b := by
+  unfold formClusters
+  by_cases hsc : (b.scratch &&& SCRATCH_HAS_NON_ASCII == 0) = true
+  · simp only [hsc, if_true]
+    exact ⟨b, rfl, rfl⟩
+  · simp only [hsc, Bool.false_eq_true, if_false]
+    by_cases h0 : b.len > 0
+    · obtain ⟨r, hr, hr1, hr2⟩ := graphemeEnd_spec b 0 hin.len_le
+      simp only [h0, if_true, hr, ok_bind]
+      exact formLoop_glyphs (b.level == 0) b.len hg (b.len + 1) b 0 r hin rfl hr1 (fun h => hr2 h)
+    · simp only [h0, if_false, pure_bind']
+      have hz : b.len = 0 := by omega
+      refine ⟨b, ?_, rfl⟩
+      rw [hz]; simp [formLoop]; rfl
+
+
+end RbModel.Buf
